@@ -708,8 +708,32 @@ class Prettier:
 		Returns:
 			フォーマット文字列
 		"""
-		pretty_patterns = ' '.join([cls._pretty_pattern_entry(pattern) for pattern in patterns.entries])
-		return cls._deco_repeat(pretty_patterns, patterns.rep)
+		pretty_entries: list[str] = []
+		for pattern in patterns.entries:
+			pretty_entry = cls._pretty_pattern_entry(pattern)
+			# ANDの配下に並ぶリピートなしのORグループは、括弧で囲わないと再パース時に結合順が変わるため括弧を付与
+			if len(patterns.entries) > 1 and isinstance(pattern, Patterns) and cls._is_bare_or(pattern):
+				pretty_entry = f'({pretty_entry})'
+
+			pretty_entries.append(pretty_entry)
+
+		return cls._deco_repeat(' '.join(pretty_entries), patterns.rep)
+
+	@classmethod
+	def _is_bare_or(cls, patterns: Patterns) -> bool:
+		"""括弧なしで出力されるORグループか判定
+
+		Args:
+			pattern: マッチングパターングループ
+		Returns:
+			True = 括弧なしのORグループ
+		"""
+		if patterns.rep != Repeators.NoRepeat:
+			return False
+		elif patterns.op == Operators.Or:
+			return len(patterns.entries) > 1
+		else:
+			return len(patterns.entries) == 1 and isinstance(patterns.entries[0], Patterns) and cls._is_bare_or(patterns.entries[0])
 
 	@classmethod
 	def _pretty_patterns_or(cls, patterns: Patterns) -> str:
